@@ -193,6 +193,26 @@ pub struct Log {
     pub track: Vec<crate::values::TrackEv>,
     #[serde(default)]
     pub lend: Vec<LendEv>,
+    #[serde(default)]
+    pub tasks: Vec<TaskRec>,
+}
+
+/// one future of the executor world
+#[derive(Clone, Debug, Serialize, Deserialize)]
+pub struct TaskRec {
+    pub op: (u8, u16),
+    pub index: u8,
+    pub m: M,
+    pub x: u8,
+    pub polls: u32,
+    /// position in first-poll order
+    pub first_poll: Option<u32>,
+    pub call: Option<u32>,
+    pub result: Option<Outcome>,
+    pub cancelled: bool,
+    /// state right after the future was created (before any poll)
+    pub after_create: Option<Snap>,
+    pub before_create: Option<Snap>,
 }
 
 #[derive(Clone, Debug, Serialize, Deserialize)]
@@ -226,6 +246,8 @@ pub struct RunCtx {
     pub slots: Vec<Mutex<Option<Arc<unimock::Unimock>>>>,
     pub slot_mock: Vec<AtomicU64>,
     pub tracker: Arc<crate::values::Tracker>,
+    /// number of top-level Call operations completed so far
+    pub seq: AtomicU64,
 }
 
 impl RunCtx {
